@@ -440,7 +440,24 @@ class Model:
                     r = self.resolve_expr_static(mod, vals[0])
                     if isinstance(r, FuncInfo):
                         return r
+        if f is None:
+            f = self._renamed(qualname)
         return need(f, f"anchor function {qualname} not found")
+
+    def _renamed(self, qualname: str):
+        """A pinned function that exists under a new name: the only function of the same module that is
+        not in the pinned inventory and has exactly the pinned parameter list (at least one parameter)."""
+        try:
+            from .inventory import FUNCTIONS, SIGNATURES
+        except ImportError:
+            return None
+        ps = SIGNATURES.get(qualname)
+        if not ps:
+            return None
+        mod = qualname.split(".")[0]
+        cands = [g for q, g in self.functions.items() if g.module.short == mod and q not in FUNCTIONS and tuple(g.params) == tuple(ps)
+                 and "<locals>" not in q]
+        return cands[0] if len(cands) == 1 else None
 
     def func_opt(self, qualname: str) -> Optional[FuncInfo]:
         return self.functions.get(qualname)
